@@ -320,6 +320,48 @@ func (x *Exec) mergeStates(as []arrival, j *ssa.BasicBlock, base, baseDecls int)
 	// environment of the current frame: merge the phis of the join block; keep everything else from
 	// the union (values defined inside a branch are not used after the join except through phis)
 	mf := m.top()
+	// calls made on only some of the merged paths: remember under which condition they ran
+	{
+		calls := map[ssa.Value]bool{}
+		for _, a := range as {
+			for v := range a.s.top().env {
+				if _, isCall := v.(*ssa.Call); isCall {
+					calls[v] = true
+				}
+			}
+		}
+		for v := range calls {
+			var conds []T
+			everywhere := true
+			for i, a := range as {
+				fr := a.s.top()
+				if _, has := fr.env[v]; !has {
+					everywhere = false
+					continue
+				}
+				if c, cond := fr.ranCond[v]; cond {
+					everywhere = false
+					conds = append(conds, And(guards[i], c))
+				} else {
+					conds = append(conds, guards[i])
+				}
+			}
+			if everywhere {
+				continue
+			}
+			if mf.ranCond == nil {
+				mf.ranCond = map[ssa.Value]T{}
+			} else if _, shared := first.top().ranCond[v]; shared || true {
+				// mf may still share the map with the first path's frame: copy on write
+				cp := make(map[ssa.Value]T, len(mf.ranCond)+1)
+				for k2, c2 := range mf.ranCond {
+					cp[k2] = c2
+				}
+				mf.ranCond = cp
+			}
+			mf.ranCond[v] = Or(conds...)
+		}
+	}
 	for _, a := range as[1:] {
 		for v, val := range a.s.top().env {
 			if _, ok := mf.env[v]; !ok {
